@@ -49,7 +49,7 @@ package process
 //@    (is(f, ReceiveForm) ==> kid(ReceiveForm(f).continuation_e, fsize(f))) &&
 //@    (is(f, BranchForm) ==> kid(BranchForm(f).continuation_e, fsize(f))) &&
 //@    (is(f, CaseForm) ==> branchesOK(CaseForm(f).branches, fsize(f))) &&
-//@    (is(f, NewForm) ==> kid(NewForm(f).body, fsize(f)) && kid(NewForm(f).continuation_e, fsize(f)) && !NewForm(f).derivedFromMacro) &&
+//@    (is(f, NewForm) ==> kid(NewForm(f).body, fsize(f)) && kid(NewForm(f).continuation_e, fsize(f)) && !NewForm(f).derivedFromMacro && born(f) < epoch()) &&
 //@    (is(f, SplitForm) ==> kid(SplitForm(f).continuation_e, fsize(f))) &&
 //@    (is(f, WaitForm) ==> kid(WaitForm(f).continuation_e, fsize(f))) &&
 //@    (is(f, ShiftForm) ==> kid(ShiftForm(f).continuation_e, fsize(f))) &&
@@ -521,7 +521,10 @@ package process
 
 // ---- C09: the cut rule
 // the type annotation of a spawned channel is a well-shaped tree (or absent) before and after checking
-//@ invariant[C09] forall x *NewForm :: x.new_name_c.Type == nil || shapeOK(x.new_name_c.Type)
+// (stated for the terms that exist when typechecking starts - epoch() is the allocation counter at that moment)
+//@ spec epoch() int
+//@ invariant[C09] epoch() <= allocCounter()
+//@ invariant[C09] forall x *NewForm :: born(Form(x)) < epoch() ==> x.new_name_c.Type == nil || shapeOK(x.new_name_c.Type)
 //@ contract checkNameType
 //@   requires[C09] envTypesOK(labelledTypesEnv)
 //@   ensures[C09] C09.nameTypeReady: result == nil ==> ready(name.Type, dom(labelledTypesEnv), vals(labelledTypesEnv))
